@@ -57,6 +57,11 @@ mutual
     | .elem e rest => e.nulFree && rest.nulFree
 end
 
+/-- body of a comment as XML 1.0 defines it: a `-` is never followed by another `-`
+    (no `--` inside, and the body does not end with `-`, which would be followed by the `-->`) -/
+def commentBody (body : Bytes) : Prop :=
+  ∀ i, i < body.length → body.getD i 0 = 45 → (body ++ [45]).getD (i + 1) 0 ≠ 45
+
 /-! ### line and column of an offset (what an error position must denote) -/
 
 /-- state of the line count after a prefix of the text: current line (1-based), offset at which
